@@ -85,10 +85,10 @@ PROPS = {
         "timeout": {"quick": 600, "thorough": 1800},
         "extra_patches": [GETRANDOM_PATCH],
         "transforms": [
-            {"file": "src/actor/spawn.rs", "regex": r"^fn on_command<A, E>\(", "repl": "pub(crate) fn on_command<A, E>(", "min": 1},
-            {"file": "src/actor/spawn.rs", "regex": r"^enum Interrupt<T, R> \{", "repl": "pub(crate) enum Interrupt<T, R> {", "min": 1},
+            {"file": "src/actor/spawn.rs", "regex": r"^fn on_command<A, E>\(", "repl": "pub(crate) fn on_command<A, E>(", "min": 1, "keep_for_replay": True},
+            {"file": "src/actor/spawn.rs", "regex": r"^enum Interrupt<T, R> \{", "repl": "pub(crate) enum Interrupt<T, R> {", "min": 1, "keep_for_replay": True},
             {"file": "src/actor/spawn.rs", "regex": r"std::collections::", "repl": "crate::verif_models::", "min": 1},
-            {"file": "src/actor.rs", "regex": r"^mod spawn;", "repl": "pub(crate) mod spawn;", "min": 1},
+            {"file": "src/actor.rs", "regex": r"^mod spawn;", "repl": "pub(crate) mod spawn;", "min": 1, "keep_for_replay": True},
         ],
         "explanation": (
             "Bounded symbolic model checking (Kani/CBMC) of (a) the two real From impls in src/actor/spawn.rs over the FULL input "
